@@ -1,4 +1,5 @@
 mod behreplay;
+mod cases;
 mod gen;
 mod histrec;
 mod ops;
@@ -54,6 +55,8 @@ fn main() {
             calm: getb(&m, "calm"),
         }),
         "behreplay" => behreplay::replay(&gets(&m, "family", ""), &gets(&m, "in", ""), &gets(&m, "out", "/tmp/icverif"), geti(&m, "limit", 0) as usize),
+        "calendar" => cases::calendar(&gets(&m, "in", ""), &gets(&m, "out", "/tmp/icverif"), getb(&m, "thorough")),
+        "grid" => cases::grid(&gets(&m, "in", ""), &gets(&m, "out", "/tmp/icverif")),
         "runprog" => histrec::run_program(&gets(&m, "in", ""), &gets(&m, "out", "/tmp/icverif")),
         "histbeh" => histrec::replay_behaviours(
             &gets(&m, "in", ""),
